@@ -109,6 +109,15 @@ CHECKS = {
             "EnvTrace.tla accepts only if all runs agree in output and status; the binaries are audited to import no libc clock/locale conversions",
             "environment values are an enumerated grid, not all strings; only C/POSIX libc locales are installed, so the LANG/LC_* dimension rests on the "
             "import audit; the clock is injected by LD_PRELOAD", "5 C20"),
+    "C09": ("model_checking", "TLA+ Format (specifier grammar as generator; Complete/Unamb2 scope; GuessAgrees/OneFamily against the transcribed calendar guess) model-checked; every emitted format replayed through dt_strfdt -> dt_strpdt on boundary values, held representations and shipped locales; library and dconv round trips validated by FormatTrace",
+            "Format.tla enumerates every complete and unambiguous format of <= 3 tokens over all 43 date tokens, <= 4 tokens over 20 (ymcw forms), <= 5 time "
+            "tokens and <= 4|6 date-time tokens with 3|6 separators incl. adjacency (72k|360k formats) and checks that the parser's calendar choice agrees "
+            "with the family the fields determine; each format is replayed on the library with 80|260 dates (new-year windows of all 14 year types, leap "
+            "days, every month, far years), 10 clock times and ns patterns, every 5th|every format also with the value held as ymcw/ywd/yd/daisy/bizda, name "
+            "tokens under 6|all prefix-free shipped locales; default outputs of the five calendars through the format-less parser; samples and dconv -f/-i "
+            "round trips (argument and whole-line stdin) are validated by FormatTrace.tla, which re-evaluates the scope on the recorded tokens",
+            "formats are exhaustive up to the token bound, values are an enumerated boundary set; scope reading: one calendar family's fields (no quarter, %G only "
+            "with %V), 2-/1-digit years inside the window around --base; known finding: %dB", "5 C09"),
 }
 NOT_APPLICABLE = []
 
